@@ -123,10 +123,7 @@ class Ctx:
             self.taken.append(d)
             self.pc.append(cond if d else z3.Not(cond))
             return d
-        rt = solve.check_sat(self.pc + [cond], timeout_ms=3000, use_cvc5=False)
-        rf = solve.check_sat(self.pc + [z3.Not(cond)], timeout_ms=3000, use_cvc5=False)
-        can_t = rt.status != "unsat"
-        can_f = rf.status != "unsat"
+        can_t, can_f = feasible_sides(self.pc, cond)
         if can_t and can_f:
             self.new_prefixes.append(self.taken + [False])
             d = True
@@ -153,7 +150,7 @@ class Ctx:
         return 0
 
     # -- obligations -----------------------------------------------------
-    def prove(self, name, goal, label=None):
+    def prove(self, name, goal, label=None, assume_after=False):
         goal = as_bool(goal)
         if isinstance(goal, bool):
             goal = z3.BoolVal(goal)
@@ -167,11 +164,59 @@ class Ctx:
             model = r.model
         self.obls.append(Obl(name, text, r.status, r.backend, r.time_s, model=model, detail=r.detail,
                              path_id=self.path_id, inputs=dict(self.inputs), label=label))
-        if r.status == "unsat":
+        # proven goals are NOT added to the path condition (they are consequences of it and only
+        # slow down later satisfiability checks); use spec.lemma() to prove-and-use a fact.
+        if assume_after:
             self.pc.append(goal)
+
+
+_LIGHT = {}
+
+
+def is_light(e):
+    """formula without transcendental symbols and without non-linear arithmetic"""
+    k = e.get_id()
+    if k in _LIGHT:
+        return _LIGHT[k]
+    r = True
+    if z3.is_quantifier(e):
+        r = False
+    elif z3.is_app(e):
+        d = e.decl()
+        kind = d.kind()
+        if kind == z3.Z3_OP_UNINTERPRETED and d.name() in reals.TRANS_NAMES:
+            r = False
+        elif kind in (z3.Z3_OP_MUL,):
+            nonconst = [c for c in e.children() if not reals.is_num_val(c)]
+            r = len(nonconst) <= 1 and all(is_light(c) for c in e.children())
+        elif kind in (z3.Z3_OP_DIV, z3.Z3_OP_IDIV, z3.Z3_OP_MOD, z3.Z3_OP_REM, z3.Z3_OP_POWER):
+            r = reals.is_num_val(e.arg(1)) and is_light(e.arg(0))
         else:
-            # continue on the side where the goal holds so later obligations are independent
-            self.pc.append(goal)
+            r = all(is_light(c) for c in e.children())
+    if len(_LIGHT) > 200000:
+        _LIGHT.clear()
+    _LIGHT[k] = r
+    return r
+
+
+def feasible_sides(pc, cond, full_timeout_ms=1000):
+    """which sides of a branch are (possibly) feasible.  Over-approximating is sound: an
+    infeasible path only yields vacuously valid obligations."""
+    light = [f for f in pc if is_light(f)]
+    if is_light(cond):
+        lt = solve.check_sat(light + [cond], timeout_ms=1000, use_cvc5=False)
+        if lt.status == "unsat":
+            return False, True
+        lf = solve.check_sat(light + [z3.Not(cond)], timeout_ms=1000, use_cvc5=False)
+        if lf.status == "unsat":
+            return True, False
+        if len(light) == len(pc):
+            return True, True
+    rt = solve.check_sat(pc + [cond], timeout_ms=full_timeout_ms, use_cvc5=False)
+    if rt.status == "unsat":
+        return False, True
+    rf = solve.check_sat(pc + [z3.Not(cond)], timeout_ms=full_timeout_ms, use_cvc5=False)
+    return True, rf.status != "unsat"
 
 
 def _short(e, n=400):
